@@ -15,7 +15,7 @@
 From Coq Require Import ZArith NArith Bool List Arith String Lia.
 Import ListNotations.
 From TP Require Import Base.PyVal Struct.CopyHeap Base.PyOpsAlias Base.PyOpsAliasIntake Gen.AliasSrc Gen.AliasIntakeSrc
-     Struct.AliasSrcProofs.
+     Struct.AliasSrcProofs Struct.CopyHeapProofs.
 From TP Require Base.PyOpsCollections.
 
 Definition item_field (f : nat) (n : pystr) : aval := AObj [(fid_key, AId (Some f)); (name_key, astr n)].
@@ -33,7 +33,8 @@ Ltac mset := cbn [alist_set pystr_eqb N.eqb Pos.eqb andb].
 Ltac mred :=
   repeat (unfold mbind, mret, a_getattr, a_getattr_def, a_getattr_dyn, a_setattr_dyn, m_and, m_or, m_not, m_boolval, m_or_val, m_and_val, a_is_none, a_is_false, a_try_reraise; cbn beta iota;
           cbn [a_unpair a_getattr a_getattr_def a_lookup a_str a_add a_setattr a_setattr_path a_field_set a_getattr_dyn
-               a_name_of a_append a_truthy a_is_none a_isinstance2 a_isinstance a_deepcopy a_try_reraise a_to_child a_is_field a_is_false a_cmp a_len a_call_class a_new_empty
+               a_name_of a_append a_truthy a_isinstance2 a_isinstance a_deepcopy a_try_reraise a_to_child a_is_field a_is_false a_cmp a_len a_call_class a_new_empty
+               a_iterate a_iterate2 a_finish_new alloc a_id a_memo_get existsb kind_isinstance orb plain_kind a_setitem a_subscript
                item_field fself iself iattrs astr aint abool anone
                alist_get alist_set pystr_eqb N.eqb Pos.eqb andb negb fst snd py_truthy
                fid_key name_key id_key body_key immutable_key s2p map list_ascii_of_string Ascii.N_of_ascii
@@ -53,9 +54,9 @@ Section Extract.
   (* one round of the loop: set the item field's name, run its __set__ on the scratch, read the stored value back *)
   Definition step_spec (F : aval * aval * aval -> aval -> M (aval * aval * aval)) : Prop :=
     forall i c acc n sa h,
-      F (ATmp KList acc, self n, AObj sa) (APair (aint i) (AV c)) h =
+      F (self n, ATmp KList acc, AObj sa) (APair (aint i) (AV c)) h =
       match recf f h c with
-      | Ok (h1, c1) => Ok (h1, (ATmp KList (acc ++ [(([] : pystr), c1)]), self (elem_name nm i),
+      | Ok (h1, c1) => Ok (h1, (self (elem_name nm i), ATmp KList (acc ++ [(([] : pystr), c1)]),
                                 AObj (alist_set sa (elem_name nm i) (AV c1))))
       | Raise e => Raise e
       end.
@@ -64,10 +65,10 @@ Section Extract.
     forall kids i acc n sa h,
       match map_kidsR (recf f) h (unlabel kids) with
       | Ok (h1, ks) => exists n' sa',
-          a_fold F (enum_thunks (map (fun p : pystr * child => mret (AV (snd p))) kids) i) (ATmp KList acc, self n, AObj sa) h =
-          Ok (h1, (ATmp KList (acc ++ ks), self n', AObj sa'))
+          a_fold F (enum_thunks (map (fun p : pystr * child => mret (AV (snd p))) kids) i) (self n, ATmp KList acc, AObj sa) h =
+          Ok (h1, (self n', ATmp KList (acc ++ ks), AObj sa'))
       | Raise e =>
-          a_fold F (enum_thunks (map (fun p : pystr * child => mret (AV (snd p))) kids) i) (ATmp KList acc, self n, AObj sa) h = Raise e
+          a_fold F (enum_thunks (map (fun p : pystr * child => mret (AV (snd p))) kids) i) (self n, ATmp KList acc, AObj sa) h = Raise e
       end.
   Proof.
     intro SP. induction kids as [|[k c] t IH]; intros i acc n sa h.
@@ -100,7 +101,7 @@ Section Extract.
       [| pose proof (extract_fold F SP (o_kids o) 0%Z [] nm [] h) as X;
          destruct (map_kidsR (recf f) h (unlabel (o_kids o))) as [[h1 ks]|e];
          [ destruct X as [n' [sa' X]];
-           replace (a_fold F T A H) with (Ok (h1, (ATmp KList ([] ++ ks), fself fimm custom nm (item_field f n') u ad, AObj sa')) : res (heap * (aval * aval * aval)))
+           replace (a_fold F T A H) with (Ok (h1, (fself fimm custom nm (item_field f n') u ad, ATmp KList ([] ++ ks), AObj sa')) : res (heap * (aval * aval * aval)))
              by (symmetry; exact X); reflexivity
          | replace (a_fold F T A H) with (Raise e : res (heap * (aval * aval * aval))) by (symmetry; exact X); reflexivity ] ]
     end.
@@ -182,6 +183,141 @@ Section FieldSet.
   Qed.
 End FieldSet.
 
+(* ------------------------------------------------------------------ Array.__set__ / Map.__set__: the whole intake *)
+
+Lemma run_plain_thunks' kids h :
+  run_thunks (map (fun (p : pystr * child) (h0 : heap) => Ok (h0, AV (snd p))) kids) h = Ok (h, map (fun p => AV (snd p)) kids).
+Proof. exact (run_plain_thunks kids h). Qed.
+
+(* the owner is a plain (mutable) Structure under construction *)
+Definition plain_owner (ia : list (pystr * aval)) : Prop :=
+  constructing ia /\ alist_get ia (s2p "_immutable") = None.
+
+(* _ListStruct(field, instance, <the rebuilt list>, name) for a field not declared immutable and a plain owner: the
+   new wrapper's body holds the items of the list *)
+Lemma list_init_plain E rec rest ia nmv ks h :
+  alist_get ia (s2p "_immutable") = None ->
+  Src_ListStruct_init E rec (AObj []) (AObj ((s2p "_immutable", abool false) :: rest)) (AObj ia) (ATmp KList ks) nmv h =
+  Ok (h, AObj ((body_key, ATmp KWList (unlabel ks)) ::
+               wattrs (AObj ((s2p "_immutable", abool false) :: rest)) (AObj ia) nmv)).
+Proof.
+  intro IM. norm IM.
+  unfold Src_ListStruct_init, Src_ImmutableMixin_get_defensive_copy_if_needed, Src_ImmutableMixin_is_immutable.
+  mred. rewrite IM. mred. unfold a_super_init. mred. rewrite run_plain_thunks'. mred. rewrite as_kids_plain. reflexivity.
+Qed.
+
+(* ... and from the caller's own plain list (an untyped Array hands it to the wrapper as it is): the body holds the
+   caller's ITEMS (a one-level copy: AliasSites s_liststruct_init = Copies), not the caller's list *)
+Lemma list_init_plain_ref E rec rest ia nmv l h o :
+  alist_get ia (s2p "_immutable") = None -> get h l = Some o -> o_kind o = KList ->
+  Src_ListStruct_init E rec (AObj []) (AObj ((s2p "_immutable", abool false) :: rest)) (AObj ia) (AV (CRef l)) nmv h =
+  Ok (h, AObj ((body_key, ATmp KWList (unlabel (o_kids o))) ::
+               wattrs (AObj ((s2p "_immutable", abool false) :: rest)) (AObj ia) nmv)).
+Proof.
+  intros IM G K. norm IM.
+  unfold Src_ListStruct_init, Src_ImmutableMixin_get_defensive_copy_if_needed, Src_ImmutableMixin_is_immutable.
+  mred. unfold child_isinstance. repeat (first [rewrite G | rewrite K | progress cbn [existsb kind_isinstance orb negb] | progress mred]). rewrite IM. mred.
+  unfold a_super_init. mred. unfold kind_of, a_kids. repeat (rewrite G; mred). rewrite K. repeat (rewrite G; mred).
+  rewrite run_plain_thunks'. mred. rewrite as_kids_plain. reflexivity.
+Qed.
+
+Section ArraySet.
+  Variables (E : aenv) (CK : checks) (recf : nat -> heap -> child -> res (heap * child)).
+  Variables (rec : heap -> child -> res (heap * child)) (sup0 : aval -> aval -> aval -> M aval).
+  Variables (nm : pystr) (u ad : aval) (ia : list (pystr * aval)).
+  Hypothesis CKP : checks_pass CK.
+  Hypothesis UO : uniq_off E.
+  Hypothesis PO : plain_owner ia.
+  Hypothesis NN : pystr_eqb nm (s2p "_instantiated") = false.
+
+  (* Array[item field #f].__set__(instance, <the caller's plain list l>), the field not declared immutable, a plain
+     owner, the validations passing: the instance ends up holding a NEW _ListStruct -- allocated at the end of the
+     heap, after everything the item field allocated -- whose items are what the item field's own __set__ stored
+     for each element, in order.  The caller's list l is neither stored nor written (the heap is only extended by
+     [recf] and by the one allocation). *)
+  Theorem src_array_set_typed f n0 l h o :
+    get h l = Some o -> o_kind o = KList ->
+    Src_Array_set E CK recf rec (Src_Field_set E CK recf rec sup0)
+                  (fself false false nm (item_field f n0) u ad) (AObj ia) (AV (CRef l)) h =
+    lift_kids (map_kidsR (recf f) h (unlabel (o_kids o)))
+      (fun h1 ks => Ok (h1 ++ [{| o_kind := KWList; o_kids := unlabel ks |}],
+                        AObj (alist_set ia nm (AV (CRef (List.length h1)))))).
+  Proof.
+    intros G K. destruct PO as [[T I] IM]. pose proof T as T'. norm T'.
+    assert (CP : forall n a h, a_check CK n a h = Ok (h, anone)) by (intros; unfold a_check; rewrite CKP; reflexivity).
+    unfold Src_Array_set. mred. rewrite T'. mred. repeat (rewrite CP; mred).
+    rewrite (src_extract_field_value E CK recf rec (Src_Field_set E CK recf rec sup0) false false nm f u ad l h o n0 G K).
+    destruct (map_kidsR (recf f) h (unlabel (o_kids o))) as [[h1 ks]|e]; [| reflexivity].
+    cbn [lift_kids]. mred.
+    unfold fself. rewrite (list_init_plain E rec _ ia _ ks _ IM). mred. unfold wattrs. mred.
+    fold (fself false false nm (item_field f n0) u ad).
+    rewrite (src_field_set_plain E CK recf rec sup0 nm (item_field f n0) u ad ia UO (conj T I) false false _ _
+               eq_refl (fun X => match Bool.diff_false_true X with end) NN).
+    reflexivity.
+  Qed.
+
+  (* Array (no item field).__set__(instance, <the caller's plain list l>): a NEW _ListStruct (the one allocation)
+     holding the caller's items themselves -- the elements are shared (AliasIntake.pos at TArray None: any_reach xs),
+     the list is not *)
+  Theorem src_array_set_untyped l h o :
+    get h l = Some o -> o_kind o = KList ->
+    Src_Array_set E CK recf rec (Src_Field_set E CK recf rec sup0)
+                  (fself false false nm anone u ad) (AObj ia) (AV (CRef l)) h =
+    Ok (h ++ [{| o_kind := KWList; o_kids := unlabel (o_kids o) |}],
+        AObj (alist_set ia nm (AV (CRef (List.length h))))).
+  Proof.
+    intros G K. destruct PO as [[T I] IM]. pose proof T as T'. norm T'.
+    assert (CP : forall n a h, a_check CK n a h = Ok (h, anone)) by (intros; unfold a_check; rewrite CKP; reflexivity).
+    unfold Src_Array_set. mred. rewrite T'. mred. repeat (rewrite CP; mred).
+    unfold fself. rewrite (list_init_plain_ref E rec _ ia _ l h o IM G K). mred. unfold wattrs. mred.
+    fold (fself false false nm anone u ad).
+    rewrite (src_field_set_plain E CK recf rec sup0 nm anone u ad ia UO (conj T I) false false _ _
+               eq_refl (fun X => match Bool.diff_false_true X with end) NN).
+    reflexivity.
+  Qed.
+End ArraySet.
+
+(* a __set__ chain / a copy only EXTENDS the heap (every typedpy intake does: CopyHeapProofs.Step for deepcopy) *)
+Definition extends (g : heap -> child -> res (heap * child)) : Prop :=
+  forall h c h' c', g h c = Ok (h', c') -> exists e, h' = h ++ e.
+
+Lemma map_kidsR_extends g : extends g ->
+  forall kids h h' ks, map_kidsR g h kids = Ok (h', ks) -> exists e, h' = h ++ e.
+Proof.
+  intro X. induction kids as [|[k c] t IH]; intros h h' ks H.
+  - inversion H. exists []. symmetry. apply app_nil_r.
+  - cbn [map_kidsR] in H. destruct (g h c) as [[h1 c1]|e] eqn:G1; [| discriminate H].
+    destruct (map_kidsR g h1 t) as [[h2 t2]|e] eqn:M; [| discriminate H]. inversion H; subst.
+    destruct (X _ _ _ _ G1) as [e1 E1]. destruct (IH _ _ _ M) as [e2 E2]. exists (e1 ++ e2). subst. rewrite app_assoc. reflexivity.
+Qed.
+
+(* The typed Array intake in the terms of the separation model (CopyHeap): when the item field's chain only extends
+   the heap, the object the instance holds is a location that did not exist before the call (so it is not the
+   caller's list, nor anything the caller could reach), it is a _ListStruct over the item field's outputs, and the
+   caller's list is still what it was. *)
+Corollary src_array_set_typed_fresh E CK recf rec sup0 nm u ad ia f n0 l h o :
+  checks_pass CK -> uniq_off E -> plain_owner ia -> pystr_eqb nm (s2p "_instantiated") = false ->
+  extends (recf f) -> get h l = Some o -> o_kind o = KList ->
+  forall hf inst', 
+    Src_Array_set E CK recf rec (Src_Field_set E CK recf rec sup0)
+                  (fself false false nm (item_field f n0) u ad) (AObj ia) (AV (CRef l)) h = Ok (hf, inst') ->
+    exists w ks, inst' = AObj (alist_set ia nm (AV (CRef w))) /\ List.length h <= w /\
+                 get hf w = Some {| o_kind := KWList; o_kids := ks |} /\
+                 (exists h1, map_kidsR (recf f) h (unlabel (o_kids o)) = Ok (h1, ks)) /\
+                 get hf l = Some o.
+Proof.
+  intros CKP UO PO NN X G K hf inst' R.
+  rewrite (src_array_set_typed E CK recf rec sup0 nm u ad ia CKP UO PO NN f n0 l h o G K) in R.
+  destruct (map_kidsR (recf f) h (unlabel (o_kids o))) as [[h1 ks]|e] eqn:M; [| discriminate R].
+  cbn [lift_kids] in R. inversion R; subst hf inst'. clear R.
+  destruct (map_kidsR_extends _ X _ _ _ _ M) as [e E1].
+  exists (List.length h1), ks. repeat split.
+  - subst h1. rewrite app_length. lia.
+  - rewrite (map_kidsR_unlabel (recf f) _ _ _ _ M). apply get_app_new.
+  - exists h1. reflexivity.
+  - subst h1. rewrite <- app_assoc. rewrite get_app_old; [exact G | exact (get_lt _ _ _ G)].
+Qed.
+
 (* ------------------------------------------------------------------ the whole intake of an Array, on a sample
    (kernel-evaluated regression of the composition Array.__set__ -> extract_field_value -> _ListStruct(...) ->
    Field.__set__; the universally quantified statements are the theorems above and Struct/AliasSrcProofs.v) *)
@@ -256,3 +392,6 @@ Print Assumptions array_intake_untyped.
 Print Assumptions set_intake_typed.
 Print Assumptions set_intake_untyped_retains.
 Print Assumptions map_intake_typed.
+Print Assumptions src_array_set_typed.
+Print Assumptions src_array_set_untyped.
+Print Assumptions src_array_set_typed_fresh.
